@@ -245,7 +245,7 @@ def subchecks(tier):
             prop,
             quick=400,
             thorough=30000,
-            floors={"constraint_updated_mid_run": 0.08, "binding_constraint": 0.225, "estimator_bound_below_max": 0.076, "estimator_bound_exactly_zero": 0.009, "uninterrupted": 0.15, "sched_rr": 0.127, "sched_greedy": 0.229, "has_continuous_evse": 0.4, "has_finite_evse": 0.312},
+            floors={"constraint_updated_mid_run": 0.08, "binding_constraint": 0.225, "estimator_bound_below_max": 0.076, "estimator_bound_exactly_zero": 0.009, "uninterrupted": 0.127, "sched_rr": 0.127, "sched_greedy": 0.229, "has_continuous_evse": 0.349, "has_finite_evse": 0.312},
         )
     ]
 
